@@ -236,5 +236,134 @@ pub fn families() -> Vec<Box<dyn Family>> {
                 case(a.as_bytes(), b.as_bytes(), &algs, cfg.tiny, out);
             },
         ),
+        family(
+            "long_texts",
+            "long line texts (150..5000 lines; every 12th case above 65536 lines) with <= 12 scattered line edits x {lines, words} x {Myers, Patience} x {str,[u8]} x deadline none / expiring",
+            false,
+            1,
+            |cfg| cfg.n(24, 400),
+            |idx, cfg, out| {
+                let mut rng = Rng::for_case(cfg.seed, "c04.long_texts", idx);
+                let n = if cfg.tiny {
+                    5
+                } else if idx % 12 == 5 {
+                    rng.range(65_537, 67_000)
+                } else {
+                    *rng.pick(&[150usize, 255, 256, 257, 1000, 5000])
+                };
+                let (a, b) = text_gen::long_text_pair(&mut rng, n, 12);
+                out.sample(|| format!("{} lines; old starts {}", n, show(&a[..a.len().min(60)])));
+                out.nontrivial(&(&a, &b));
+                long_case(&a, &b, out);
+            },
+        ),
+        family(
+            "constructors",
+            "TextDiff::from_lines/from_words/from_chars/from_unicode_words/from_graphemes/from_slices are the default-configured builder: same changes as TextDiff::configure().diff_*; G-TXT pairs x {str,[u8]}",
+            false,
+            16,
+            |cfg| cfg.n(2_000, 40_000),
+            |idx, cfg, out| {
+                let mut rng = Rng::for_case(cfg.seed, "c04.constructors", idx);
+                let (a, b) = text_gen::text_pair(&mut rng, if cfg.tiny { 2 } else { 7 }, idx % 2 == 0);
+                out.sample(|| format!("old={} new={}", show(&a), show(&b)));
+                if a != b {
+                    out.nontrivial(&(&a, &b));
+                }
+                constructors_case(&a, &b, cfg.tiny, out);
+            },
+        ),
     ]
+}
+
+/// lines + words only, Myers + Patience, for long inputs
+fn long_case(a: &[u8], b: &[u8], out: &mut Local) {
+    let valid = std::str::from_utf8(a).is_ok() && std::str::from_utf8(b).is_ok();
+    for tok in [0usize, 1] {
+        for alg in [Algorithm::Myers, Algorithm::Patience] {
+            for as_str in [false, true] {
+                if as_str && !valid {
+                    continue;
+                }
+                for fuel in [None, Some(2u64)] {
+                    let ctx = || format!("tokenizer={} alg={} type={} deadline={:?} ({} / {} bytes)", TOKS[tok], alg_name(alg), if as_str { "str" } else { "[u8]" }, fuel, a.len(), b.len());
+                    out.eval();
+                    let r = guard(|| run_diff(tok, alg, as_str, a, b, fuel));
+                    similar::verif_hooks::set_clock(similar::verif_hooks::Clock::Off);
+                    match r {
+                        Err(p) => out.violation("panic", format!("text diff panicked: {} | {}", p, ctx())),
+                        Ok((all, _)) => {
+                            out.count_n("changes_observed", all.len() as u64);
+                            judge("iter_all_changes", &all, a, b, &ctx, out);
+                        }
+                    }
+                }
+            }
+        }
+    }
+}
+
+fn constructors_case(a: &[u8], b: &[u8], skip_bstr_unicode: bool, out: &mut Local) {
+    let valid = std::str::from_utf8(a).is_ok() && std::str::from_utf8(b).is_ok();
+    for tok in 0..TOKS.len() {
+        #[cfg(not(feature = "unicode"))]
+        if tok >= 3 {
+            continue;
+        }
+        for as_str in [false, true] {
+            if as_str && !valid {
+                continue;
+            }
+            if !as_str && skip_bstr_unicode && tok >= 3 {
+                continue;
+            }
+            out.eval();
+            let r = guard(|| {
+                if as_str {
+                    let (sa, sb) = (std::str::from_utf8(a).unwrap(), std::str::from_utf8(b).unwrap());
+                    let d = match tok {
+                        0 => collect(&TextDiff::from_lines(sa, sb)),
+                        1 => collect(&TextDiff::from_words(sa, sb)),
+                        2 => collect(&TextDiff::from_chars(sa, sb)),
+                        #[cfg(feature = "unicode")]
+                        3 => collect(&TextDiff::from_unicode_words(sa, sb)),
+                        #[cfg(feature = "unicode")]
+                        4 => collect(&TextDiff::from_graphemes(sa, sb)),
+                        _ => collect(&TextDiff::from_chars(sa, sb)),
+                    };
+                    let ta = sa.tokenize_lines();
+                    let tb = sb.tokenize_lines();
+                    (d, collect(&TextDiff::from_slices(&ta, &tb)))
+                } else {
+                    let d = match tok {
+                        0 => collect(&TextDiff::from_lines(a, b)),
+                        1 => collect(&TextDiff::from_words(a, b)),
+                        2 => collect(&TextDiff::from_chars(a, b)),
+                        #[cfg(feature = "unicode")]
+                        3 => collect(&TextDiff::from_unicode_words(a, b)),
+                        #[cfg(feature = "unicode")]
+                        4 => collect(&TextDiff::from_graphemes(a, b)),
+                        _ => collect(&TextDiff::from_chars(a, b)),
+                    };
+                    let ta = a.tokenize_lines();
+                    let tb = b.tokenize_lines();
+                    (d, collect(&TextDiff::from_slices(&ta, &tb)))
+                }
+            });
+            let ctx = || format!("constructor TextDiff::from_{} type={} old={} new={}", TOKS[tok], if as_str { "str" } else { "[u8]" }, show(a), show(b));
+            match r {
+                Err(p) => out.violation("panic", format!("{} | {}", p, ctx())),
+                Ok(((all, _), (sl, _))) => {
+                    judge("from_* constructor", &all, a, b, &ctx, out);
+                    judge("from_slices over line tokens", &sl, a, b, &ctx, out);
+                    // same as the default-configured builder
+                    if let Ok((cfg_all, _)) = guard(|| run_diff(tok, Algorithm::Myers, as_str, a, b, None)) {
+                        if cfg_all != all {
+                            out.violation("text.constructor_differs_from_builder", format!("from_{} and configure().diff_{} give different changes | {}", TOKS[tok], TOKS[tok], ctx()));
+                        }
+                    }
+                }
+            }
+        }
+    }
 }
